@@ -726,3 +726,79 @@ V("C19", "freq-mean-by-count-minus-one", I,
   ("                current = currs / num_cpus", "                current = currs / (num_cpus - 1)"), "fires:C19.R3")
 V("C19", "cpu-count-zero-kept", I,
   ("    if ret is not None and ret < 1:\n        ret = None\n", ""), "fires:C19.R3")
+
+# ----------------------------------------------------------------- C11
+V("C11", "defect-F12-returns", L,
+  ("                tokens = line.split(None, 7)", "                tokens = line.split()"), "fires:C11.R3")
+V("C11", "inet4-kind-wrong", L,
+  ("            \"inet4\": (tcp4, udp4),", "            \"inet4\": (tcp4, udp4, tcp6),"), "fires:C11.R1")
+V("C11", "udp6-family", L,
+  ("        udp6 = (\"udp6\", socket.AF_INET6, socket.SOCK_DGRAM)", "        udp6 = (\"udp6\", socket.AF_INET, socket.SOCK_DGRAM)"),
+  "fires:C11.R1")
+V("C11", "kind-missing", L,
+  ("            \"inet6\": (tcp6, udp6),\n", ""), "fires:C11.R1")
+V("C11", "kind-not-validated-process", I,
+  ("        _check_conn_kind(kind)\n        return self._proc.net_connections(kind)", "        return self._proc.net_connections(kind)"),
+  "fires:C11.R2")
+V("C11", "kind-validation-after", I,
+  ("    _check_conn_kind(kind)\n    return _psplatform.net_connections(kind)",
+   "    ret = _psplatform.net_connections(kind)\n    _check_conn_kind(kind)\n    return ret"), "fires:C11.R2")
+V("C11", "laddr-raddr-swapped", L,
+  ("                    _, laddr, raddr, status, _, _, _, _, _, inode = (", "                    _, raddr, laddr, status, _, _, _, _, _, inode = ("),
+  "fires:C11.R3")
+V("C11", "inode-col-8", L,
+  ("                    _, laddr, raddr, status, _, _, _, _, _, inode = (\n                        line.split()[:10]",
+   "                    _, laddr, raddr, status, _, _, _, _, inode, _ = (\n                        line.split()[:10]"), "fires:C11.R3")
+V("C11", "port-decimal", L,
+  ("        port = int(port, 16)", "        port = int(port)"), "fires:C11.R3")
+V("C11", "port0-kept", L,
+  ("        if not port:\n            return ()\n", ""), "fires:C11.R3")
+V("C11", "unix-type-col", L,
+  ("                    _, _, _, _, type_, _, inode = tokens[0:7]", "                    _, _, _, type_, _, _, inode = tokens[0:7]"),
+  "fires:C11.R3")
+V("C11", "tcp-state-swapped", L,
+  ("    \"0A\": _common.CONN_LISTEN,\n    \"0B\": _common.CONN_CLOSING,", "    \"0A\": _common.CONN_CLOSING,\n    \"0B\": _common.CONN_LISTEN,"),
+  "fires:C11.R4")
+V("C11", "udp-status-from-table", L,
+  ("                    if type_ == socket.SOCK_STREAM:\n                        status = TCP_STATUSES[status]",
+   "                    if type_ != socket.SOCK_DGRAM or True:\n                        status = TCP_STATUSES[status]"), "fires:C11.R4")
+V("C11", "owner-last-holder", L,
+  ("                    pid, fd = inodes[inode][0]", "                    pid, fd = inodes[inode][-1]"), "fires:C11.R4")
+V("C11", "filter-dropped", L,
+  ("                if filter_pid is not None and filter_pid != pid:\n                    continue\n                else:\n                    if type_ == socket.SOCK_STREAM:",
+   "                if False:\n                    continue\n                else:\n                    if type_ == socket.SOCK_STREAM:"), "fires:C11.R4")
+
+# ----------------------------------------------------------------- C12
+V("C12", "raw-readlink-in-cwd", L,
+  ("        return self._readlink(\n            f\"{self._procfs_path}/{self.pid}/cwd\", fallback=\"\"\n        )",
+   "        return os.readlink(f\"{self._procfs_path}/{self.pid}/cwd\")"), "fires:C12.R1")
+V("C12", "nul-garbage-kept", L,
+  ("    path = path.split('\\x00')[0]\n", ""), "fires:C12.R1")
+V("C12", "deleted-always-stripped", L,
+  ("    if path.endswith(' (deleted)') and not path_exists_strict(path):\n        path = path[:-10]",
+   "    if path.endswith(' (deleted)'):\n        path = path[:-10]"), "fires:C12.R1")
+V("C12", "deleted-strip-9", L,
+  ("        path = path[:-10]\n    return path", "        path = path[:-9]\n    return path"), "fires:C12.R1")
+V("C12", "exe-fallback-none", L,
+  ("            f\"{self._procfs_path}/{self.pid}/exe\", fallback=\"\"", "            f\"{self._procfs_path}/{self.pid}/exe\""),
+  "fires:C12.R1")
+V("C12", "cmdline-always-space", L,
+  ("        sep = '\\x00' if data.endswith('\\x00') else ' '", "        sep = ' '"), "fires:C12.R2")
+V("C12", "cmdline-trailing-kept", L,
+  ("        if data.endswith(sep):\n            data = data[:-1]\n", ""), "fires:C12.R2")
+V("C12", "environ-no-progress", C,
+  ("        pos = next_pos + 1\n", "        pos = next_pos\n"), "fires:C12.R3")
+V("C12", "environ-stop-strict", C,
+  ("        if next_pos <= pos:\n            break", "        if next_pos < 0:\n            break"), "fires:C12.R3")
+V("C12", "environ-eq-zero-ok", C,
+  ("        if equal_pos > pos:", "        if equal_pos >= 0:"), "fires:C12.R3")
+V("C12", "environ-eq-unbounded", C,
+  ("        equal_pos = data.find(\"=\", pos, next_pos)", "        equal_pos = data.find(\"=\", pos)"), "fires:C12.R3")
+V("C12", "name-extension-unguarded", I,
+  ("        if POSIX and len(name) >= 15:", "        if POSIX and len(name) >= 1:"), "fires:C12.R4")
+V("C12", "name-extension-no-prefix", I,
+  ("                    if extended_name.startswith(name):\n                        name = extended_name",
+   "                    if extended_name:\n                        name = extended_name"), "fires:C12.R4")
+V("C12", "exe-guess-relative", I,
+  ("                    os.path.isabs(exe)\n                    and os.path.isfile(exe)", "                    os.path.isfile(exe)"),
+  "fires:C12.R4")
